@@ -465,8 +465,9 @@ fn run_file(ls: &mut Linters, it: &Item, out: &mut Buf) {
             out.count("skipped_placeholder_not_own_token (C15 territory)", 1);
             return;
         }
-        Err(RunErr::Loop(_)) => {
+        Err(RunErr::Loop(m)) => {
             out.count(if templated { "skipped_rule_panic_templated" } else { "skipped_rule_panic" }, 1);
+            out.count(&format!("loop_panic: {}", trunc(m.lines().next().unwrap_or(""), 70)), 1);
             return;
         }
         Err(RunErr::Patches(m)) => {
